@@ -252,9 +252,82 @@ Proof.
     destruct (slave_ahead _ _); [exact I|]. destruct (split_brained _ _ _); [split; [exact I|intros; exact I]|].
     destruct (behind_or_equal _ _); [|exact I].
     apply allcalls_bind; [apply r_pcm|]. intros [e|]; [exact I|]. apply allcalls_bind; [apply ac_exec; reflexivity|]. intros; exact I.
-  - destruct (match assoc h topo with Some sf => sf | None => None end) as [src|];
-      (apply allcalls_bind; [apply r_pcm|]); intros [e|]; try exact I;
-      (apply allcalls_bind; [apply ac_exec; reflexivity|]); intros; exact I.
+  - apply allcalls_bind; [apply r_find_best|]. intros src.
+    apply allcalls_bind; [apply r_pcm|]. intros [e|]; try exact I.
+    apply allcalls_bind; [apply ac_exec; reflexivity|]. intros; exact I.
+Qed.
+
+(* ---- the deliberate panic of performChangeMaster(host, host) is unreachable from the cascade repair
+   (after the repair bee82ca the blind path resolves its source too): every source it re-points to comes
+   from the resolver, which never returns the replica itself *)
+Definition not_self_repoint (s : site) : Prop := s <> 2079.
+Lemma pi_wait_repl_start f h d : panics_in not_self_repoint (wait_repl_start f h d).
+Proof.
+  induction f as [|f IH]; cbn [wait_repl_start]; [exact I|].
+  unfold now_, replica_status. cbn [bind panics_in]. intros r.
+  assert (G : forall t : Z, panics_in not_self_repoint
+     (if t <? d then s <- Do 2102 (Sql h SShowReplica) (fun r0 => match r0 with RRepl o => Ret (o, None) | RErr e => Ret (None, Some e) | _ => Ret (None, Some EOther) end) ;;
+        match snd s with Some _ => wait_repl_start f h d | None => match fst s with None => Panic 2107
+          | Some rs => if rs_io rs && rs_sql rs then Ret tt else Do 2111 (Sleep sec) (fun _ => wait_repl_start f h d) end end
+      else Ret tt)).
+  { intros t. destruct (t <? d); [|exact I]. cbn [bind panics_in]. intros r0.
+    destruct r0; cbn [bind snd fst]; try exact IH.
+    destruct o as [rs|]; [|cbn [panics_in]; unfold not_self_repoint; discriminate].
+    destruct (rs_io rs && rs_sql rs); [exact I|]. cbn [panics_in]. intros _. exact IH. }
+  destruct r; cbn [bind]; apply G.
+Qed.
+Lemma pi_exec Q s h st : panics_in Q (exec_ s h st).
+Proof. unfold exec_. cbn [panics_in]. intros r. destruct r; exact I. Qed.
+Lemma pi_change_master cfg h m : h <> m -> panics_in not_self_repoint (perform_change_master cfg h m).
+Proof.
+  intros Hne. unfold perform_change_master. destruct (N.eqb_spec h m) as [->|_]; [contradiction|].
+  apply panics_in_bind; [apply pi_exec|]. intros [x1|]; [exact I|].
+  apply panics_in_bind; [apply pi_exec|]. intros [x2|]; [exact I|].
+  apply panics_in_bind; [apply pi_exec|]. intros [x3|]; [exact I|].
+  apply panics_in_bind; [unfold now_; cbn [panics_in]; intros r; destruct r; exact I|]. intros t.
+  apply panics_in_bind; [apply pi_wait_repl_start|intros; exact I].
+Qed.
+Theorem cascade_repair_never_repoints_to_itself cfg env topo h ns la : h <> re_master env ->
+  panics_in not_self_repoint (repair_cascade_node cfg env topo h ns la).
+Proof.
+  intros Hm. unfold repair_cascade_node.
+  assert (FB : forall (B : Type) (k : host -> prog B), (forall c, c <> h -> panics_in not_self_repoint (k c)) ->
+             panics_in not_self_repoint (c <- find_best_stream_from (S (S (length topo))) cfg env topo h [h] ;; k c)).
+  { intros B k Hk. destruct (find_best_pure (S (S (length topo))) cfg env topo h [h]) as [[r E]|[s E]].
+    - rewrite E. cbn [bind]. apply Hk. apply (find_best_never_self (S (S (length topo))) cfg env topo h [h] r); [left; reflexivity|exact Hm|exact E].
+    - exfalso. revert E. generalize (S (S (length topo))) as fuel. generalize [h] as path. intros path fuel. revert path.
+      induction fuel as [|f IH]; intros path; cbn [find_best_stream_from]; [discriminate|].
+      destruct (match assoc _ topo with Some sf => sf | None => None end) as [sf|]; [|discriminate].
+      destruct (mem_host sf path); [discriminate|].
+      match goal with |- context [if ?c then Ret sf else _] => destruct c end; [discriminate|].
+      destruct (assoc sf (re_state env)) as [cand|]; [|discriminate].
+      match goal with |- context [if ?c then Ret sf else _] => destruct c end; [discriminate|]. apply IH. }
+  destruct (ns_slave ns) as [rs|].
+  - apply FB. intros cand Hc.
+    destruct (ns_repl_running ns && N.eqb cand (rs_source rs)); [exact I|].
+    destruct (negb (ns_repl_running ns) && N.eqb cand (rs_source rs)).
+    { destruct (perm_broken ns); [exact I|]. apply panics_in_bind; [apply pi_exec|intros; exact I]. }
+    apply panics_in_bind.
+    { destruct (negb (ns_repl_running ns) && _); [|exact I]. unfold now_. cbn [bind panics_in]. intros r; destruct r; exact I. }
+    intros la'. apply panics_in_bind.
+    { destruct (ns_repl_running ns); [|exact I]. apply panics_in_bind; [apply pi_exec|intros; exact I]. }
+    intros stopped. destruct (negb stopped); [exact I|].
+    apply panics_in_bind; [unfold replica_status; cbn [panics_in]; intros r; destruct r; exact I|]. intros [my e]. cbn [fst snd].
+    destruct e; [exact I|]. destruct my as [myrs|]; [|cbn [panics_in]; unfold not_self_repoint; discriminate].
+    destruct (assoc cand (re_state env)) as [cst|]; [|cbn [panics_in]; unfold not_self_repoint; discriminate].
+    destruct (node_gtid cst) as [cg|]; [|cbn [panics_in]; unfold not_self_repoint; discriminate].
+    destruct (slave_ahead _ _); [exact I|]. destruct (split_brained _ _ _); [cbn [panics_in]; intros; exact I|].
+    destruct (behind_or_equal _ _); [|exact I].
+    apply panics_in_bind; [apply pi_change_master; auto|]. intros [e|]; [exact I|]. apply panics_in_bind; [apply pi_exec|intros; exact I].
+  - apply FB. intros src Hs.
+    apply panics_in_bind; [apply pi_change_master; auto|]. intros [e|]; [exact I|]. apply panics_in_bind; [apply pi_exec|intros; exact I].
+Qed.
+
+Theorem cascade_repair_no_self_repoint_panic cfg env topo h ns la tr s :
+  h <> re_master env -> runs (repair_cascade_node cfg env topo h ns la) tr (Panicked s) -> s <> 2079.
+Proof.
+  intros Hm R.
+  exact (panics_in_sound not_self_repoint _ (cascade_repair_never_repoints_to_itself cfg env topo h ns la Hm) tr s R).
 Qed.
 
 Theorem repair_slave_calls cfg env h ns mem : h <> re_master env ->
